@@ -232,7 +232,7 @@ def apply_rule(
                 vr = g2its_mapping[v]
                 if rule.r.has_edge(ur, vr):
                     h_bond = rule.r.edges[(ur, vr)][BOND_KEY]
-                else:
+                elif rule.l.has_edge(ur, vr):
                     h_bond = 0
             its_edge_attrs[u, v] = [d[BOND_KEY], h_bond]
 
